@@ -103,10 +103,14 @@ class X:
         v = self.zint(name, 0, n - 1)
         if not self.sym:
             return v
-        for i in range(n - 1):
-            if E.ENG.branch(v == i):
-                return i
-        return n - 1
+        lo, hi = 0, n - 1  # binary splitting: depth log2(n)
+        while lo < hi:
+            mid = (lo + hi) // 2
+            if E.ENG.branch(v <= mid):
+                hi = mid
+            else:
+                lo = mid + 1
+        return lo
 
     def flag(self, name):
         return self.choice(name, 2) == 1
@@ -537,7 +541,10 @@ def write_replay(prop, h, c, detail):
                 obligation=c["obligation"], inputs=c["inputs"], detail=detail,
                 how="cd /verif && ./check %s --replay <this file>" % prop)
     digest = hashlib.sha1(json.dumps(body, sort_keys=True, default=str).encode()).hexdigest()[:10]
-    path = os.path.join(d, "%s_%s_%s_%s.json" % (prop, h.name, c["obligation"].replace("/", "-"), digest))
+    import re as _re
+
+    safe = _re.sub(r"[^A-Za-z0-9_.+-]+", "-", c["obligation"])[:80]
+    path = os.path.join(d, "%s_%s_%s_%s.json" % (prop, h.name, safe, digest))
     with open(path, "w") as f:
         json.dump(body, f, indent=1, default=str)
     return path
